@@ -156,7 +156,7 @@ def run(tier, seed):
     bin_ = core.build_lalrpop()
     tools.build()
     base = core.seed_for("C11", seed) % (2 ** 31)
-    n = {"quick": 2500, "thorough": 30000}[tier]
+    n = {"quick": 4000, "thorough": 30000}[tier]
     results = core.pmap(job, [(base + i, bin_, chk.work) for i in range(n)], chunksize=8)
     for r in results:
         chk.evaluations += 1
